@@ -135,8 +135,10 @@ class Ctx:
             self.reports += 1
             if self.reports > 3:
                 return
+        # 'before': the cases this process ran just before (state may survive from one response to the next)
         self.rec.violation(kind, {'prog': self.prog, 'server': self.server, 'secure_default': self.sd,
-                                  'tz': self.tz, 'step': step, 'detail': detail}, known_key=known)
+                                  'tz': self.tz, 'step': step, 'detail': detail, 'before': list(RECENT)},
+                           known_key=known)
 
 
 CUR = [None]
@@ -371,7 +373,15 @@ def apply_prop(ctx, resp, i, pname, spec):
     elif pname == 'etag':
         expected = value if ENTITY_TAG.match(value) else '"' + value + '"'
     elif pname in ('expires', 'last_modified'):
+        off = value.utcoffset()
+        if off is not None and off.total_seconds() != 0:
+            # documented as 'a datetime (UTC) instance': for another zone nothing is demanded of THIS
+            # header, but the call must not disturb what later, well-formed assignments produce
+            rec.count('prop.date_other_zone')
+            m.plain[header] = got
+            return
         expected = M.http_date(value)
+        rec.count('prop.date_utc_aware' if off is not None else 'prop.date_naive')
     rec.count('mon.prop_set')
     if got != expected:
         ctx.report('prop-value-mismatch', i, {'prop': pname, 'value': spec, 'got': got, 'want': expected})
@@ -477,11 +487,20 @@ def apply_op(ctx, resp, i, op):  # noqa: C901
                 ctx.report('op-raised', i, {'op': 'del ' + pname, 'exc': repr(ex)})
     elif kind == 'link':
         kw = _link_kwargs(op[1])
+        if _is_pos(op, 2):
+            rec.count('callform.link_positional')
+            largs = [kw['target'], kw['rel']] + positional(LINK_ORDER, kw)
+
+            def do_link():
+                return resp.append_link(*largs)
+        else:
+            def do_link():
+                return resp.append_link(**kw)
         co = kw.get('crossorigin')
         if co is not None and co.lower() not in ('anonymous', 'use-credentials'):
             rec.count('op.link_bad_crossorigin')
             try:
-                resp.append_link(**kw)
+                do_link()
             except ValueError:
                 pass
             except Exception as ex:  # noqa
@@ -492,7 +511,7 @@ def apply_op(ctx, resp, i, op):  # noqa: C901
             return
         old = m.get('link')
         rec.count('op.link')
-        if not _call(ctx, i, 'append_link', lambda: resp.append_link(**kw)):
+        if not _call(ctx, i, 'append_link', do_link):
             _sync(ctx, resp)
             return
         got = _read(resp, 'link')
@@ -515,11 +534,20 @@ def apply_op(ctx, resp, i, op):  # noqa: C901
         legal_name = isinstance(name, str) and name != '' and all(c in M.TCHAR for c in name) and \
             name.lower() not in COOKIE_RESERVED
         legal_value = value.isascii()
+        if _is_pos(op, 4):
+            rec.count('callform.cookie_positional')
+            cargs = [name, value] + positional(COOKIE_ORDER, kw)
+
+            def do_cookie():
+                return resp.set_cookie(*cargs)
+        else:
+            def do_cookie():
+                return resp.set_cookie(name, value, **kw)
         if not legal_name or not legal_value:
             rec.count('op.cookie_illegal')
             want = KeyError if not legal_name else ValueError
             try:
-                resp.set_cookie(name, value, **kw)
+                do_cookie()
             except want:
                 pass
             except Exception as ex:  # noqa
@@ -528,7 +556,7 @@ def apply_op(ctx, resp, i, op):  # noqa: C901
                 ctx.report('cookie-illegal-accepted', i, {'name': name, 'value': value})
             return
         rec.count('op.cookie')
-        if not _call(ctx, i, 'set_cookie', lambda: resp.set_cookie(name, value, **kw)):
+        if not _call(ctx, i, 'set_cookie', do_cookie):
             return
         prev = m.jar.get(name)
         exp = M.expected_cookie_attrs(kw, ctx.sd)
@@ -540,7 +568,16 @@ def apply_op(ctx, resp, i, op):  # noqa: C901
     elif kind == 'unset':
         name, kw = op[1], dict(op[2])
         rec.count('op.unset')
-        if not _call(ctx, i, 'unset_cookie', lambda: resp.unset_cookie(name, **kw)):
+        if _is_pos(op, 3):
+            rec.count('callform.unset_positional')
+            uargs = [name] + positional(UNSET_ORDER, kw)
+
+            def do_unset():
+                return resp.unset_cookie(*uargs)
+        else:
+            def do_unset():
+                return resp.unset_cookie(name, **kw)
+        if not _call(ctx, i, 'unset_cookie', do_unset):
             return
         prev = m.jar.get(name)
         exp = {'expires': M.PAST}
@@ -569,6 +606,30 @@ def apply_op(ctx, resp, i, op):  # noqa: C901
             ctx.stream = True
     else:
         raise RuntimeError('unknown op %r' % (op,))
+
+
+# documented positional parameter order (falcon.Response docs), NOT read from the live signature
+UNSET_ORDER = [('samesite', 'Lax'), ('domain', None), ('path', None)]
+COOKIE_ORDER = [('expires', None), ('max_age', None), ('domain', None), ('path', None), ('secure', None),
+                ('http_only', True), ('same_site', None), ('partitioned', False)]
+LINK_ORDER = [('title', None), ('title_star', None), ('anchor', None), ('hreflang', None), ('type_hint', None),
+              ('crossorigin', None), ('link_extension', None)]
+
+
+def positional(order, kw):
+    """kwargs -> positional argument list in the documented order (defaults fill the gaps)."""
+    args = []
+    last = -1
+    for j, (k, _d) in enumerate(order):
+        if k in kw:
+            last = j
+    for k, d in order[:last + 1]:
+        args.append(kw[k] if k in kw else d)
+    return args
+
+
+def _is_pos(op, n):
+    return len(op) > n and op[n] == 'pos'
 
 
 def _headers_arg(form, raw_pairs):
@@ -631,7 +692,8 @@ def apply_bad(ctx, resp, i, inner):
                 rec.count('bad.raised.prop_over_existing')
         if kind == 'cookie':
             ctx.seq += 1
-            ctx.rejected.append({'name': inner[1], 'value': inner[2], 'seq': ctx.seq})
+            ctx.rejected.append({'name': inner[1], 'value': inner[2], 'seq': ctx.seq,
+                                 'scope': {a: inner[3].get(a) for a in ('domain', 'path')}})
         return          # the model stays as it is; probe() and the emission check compare
     rec.count('bad.accepted')
     _sync(ctx, resp)
@@ -726,7 +788,7 @@ class _WRun:
 class _WEcho:
     def on_get(self, req, resp):
         c = CUR[0]
-        c.echo = (dict(req.cookies), {n: req.get_cookie_values(n) for n in c.echo_names})
+        c.echo = (req.cookies, {n: req.get_cookie_values(n) for n in c.echo_names})
 
 
 class _ARun:
@@ -737,7 +799,7 @@ class _ARun:
 class _AEcho:
     async def on_get(self, req, resp):
         c = CUR[0]
-        c.echo = (dict(req.cookies), {n: req.get_cookie_values(n) for n in c.echo_names})
+        c.echo = (req.cookies, {n: req.get_cookie_values(n) for n in c.echo_names})
 
 
 _apps = {}
@@ -925,9 +987,25 @@ def check_emission(ctx, hdrs):  # noqa: C901
                     ctx.report('unset-not-effective', END, {'cookie': name, 'lines': lines})
                 else:
                     rec.count('unset.left_over_scope')
+            # the line carries the requested SameSite / Domain / Path and no other scope than that
+            # (attributes an earlier write of the same cookie in this response asked for may linger)
+            rec.count('mon.unset_attrs')
             for a in ('domain', 'path'):
-                if kw.get(a) and d.get(a) != kw[a]:
-                    ctx.report('unset-attribute', END, {'cookie': name, 'line': line, 'attr': a})
+                if kw.get(a):
+                    if d.get(a) != kw[a]:
+                        ctx.report('unset-attribute', END, {'cookie': name, 'line': line, 'attr': a, 'want': kw[a]})
+                elif a in d and not _left_over(entry, a, d[a]):
+                    # left behind by a set_cookie() call for this name that RAISED earlier in the response?
+                    rej = any(r['name'] == name and r['seq'] < entry['seq'] and r['scope'].get(a) == d[a]
+                              for r in ctx.rejected)
+                    ctx.report('unset-attribute', END, {'cookie': name, 'line': line, 'attr': a, 'want': None},
+                               K_REJ if rej else None)
+            ss = kw.get('samesite', 'Lax')
+            if ss:
+                if (d.get('samesite') or '').lower() != ss.lower():
+                    ctx.report('unset-attribute', END, {'cookie': name, 'line': line, 'attr': 'samesite', 'want': ss})
+            elif 'samesite' in d:
+                ctx.report('unset-attribute', END, {'cookie': name, 'line': line, 'attr': 'samesite', 'want': None})
             if any(r.split('=', 1)[0].strip() == name for r in m.raw_cookies):
                 rec.count('mon.unset_vs_raw')
     return echo
@@ -941,29 +1019,57 @@ def check_echo(ctx, echo):
     header = '; '.join('%s=%s' % (n, cv) for n, cv, _ in echo)
     ctx.echo_names = [n for n, _, _ in echo]
     ctx.echo = None
-    res, hdrs, failed, info = _request(ctx.server, '/echo', [('Cookie', header)])
     END = len(ctx.prog)
-    if failed or ctx.echo is None:
-        ctx.report('echo-request-failed', END, {'cookie_header': header, 'info': info})
-        return
-    cookies, values = ctx.echo
-    for n, cv, orig in echo:
-        rec.count('mon.echo')
-        if cv != orig:
-            rec.count('echo.quoted')
-        got, gotv = cookies.get(n), values.get(n)
-        if got != orig or gotv != [orig]:
-            known = K_EMPTY if (orig == '' and cv == '""' and got == '""') else None
-            ctx.report('cookie-echo-mismatch', END, {'cookie_header': header, 'name': n, 'want': orig,
-                                                     'got': got, 'values': gotv}, known)
-    if set(cookies) != set(ctx.echo_names):
-        ctx.report('cookie-echo-names', END, {'cookie_header': header, 'got': sorted(cookies)})
+    # the same Cookie header twice: between the two requests the application does what it likes with the
+    # objects the first request handed to it (each request must read the header afresh)
+    for attempt in ('first', 'again'):
+        ctx.echo = None
+        res, hdrs, failed, info = _request(ctx.server, '/echo', [('Cookie', header)])
+        if failed or ctx.echo is None:
+            ctx.report('echo-request-failed', END, {'cookie_header': header, 'info': info, 'attempt': attempt})
+            return
+        cookies, values = ctx.echo
+        for n, cv, orig in echo:
+            rec.count('mon.echo')
+            rec.count('mon.echo_' + attempt)
+            if cv != orig:
+                rec.count('echo.quoted')
+            got, gotv = cookies.get(n), values.get(n)
+            if got != orig or gotv != [orig]:
+                known = K_EMPTY if (orig == '' and cv == '""' and got == '""') else None
+                ctx.report('cookie-echo-mismatch', END, {'cookie_header': header, 'name': n, 'want': orig, 'got': got,
+                                                         'values': gotv, 'attempt': attempt}, known)
+        if set(cookies) != set(ctx.echo_names):
+            ctx.report('cookie-echo-names', END, {'cookie_header': header, 'got': sorted(cookies),
+                                                  'attempt': attempt})
+        # application-side use of the returned objects
+        _echo_mut[0] += 1
+        for j, lst in enumerate(values.values()):
+            if isinstance(lst, list):
+                how = (_echo_mut[0] + j) % 4
+                if how == 0:
+                    lst.clear()
+                elif how == 1 and lst:
+                    lst.pop()
+                elif how == 2:
+                    lst.append('appended-by-application')
+                else:
+                    lst.reverse()
+                    lst.insert(0, 'inserted-by-application')
+        try:
+            cookies.clear()
+        except Exception:  # noqa  (a read-only mapping is fine)
+            pass
+
+
+_echo_mut = [0]
 
 
 SERVERS = [('wsgi', 'asgi')]
 
 
 _tz_counter = [0]
+RECENT = []          # the last few cases of this process: [prog, secure_default, tz]
 
 
 def run_program(rec, prog, secure_default=True, servers=None, key='auto', tz=None):
@@ -990,6 +1096,9 @@ def run_program(rec, prog, secure_default=True, servers=None, key='auto', tz=Non
         echo = check_emission(ctx, hdrs)
         check_echo(ctx, echo)
         rec.count('run.' + server)
+    if len(prog) <= 12:
+        RECENT.append([prog, secure_default, tz])
+        del RECENT[:-6]
     rec.case(repr(prog) if key == 'auto' else key)
 
 
@@ -1066,7 +1175,7 @@ def cookie_cross_product():
 def uri_program(s):
     prog = [['prop', 'location', s], ['prop', 'content_location', s],
             ['link', {'target': s, 'rel': 'next', 'anchor': s, 'title_star': ['en', s]}],
-            ['link', {'target': '/x', 'rel': 'http://ex.org/r' + s.replace(' ', '') + ' alternate', 'title_star': ['', s]}],
+            ['link', {'target': '/x', 'rel': 'http://ex.org/r' + s.replace(' ', '') + ' alternate', 'title_star': ['', s]}, 'pos'],
             # extension relation types given as network-path references (no scheme), alone and in a list
             ['link', {'target': '/y', 'rel': '//ex.org/r' + s.replace(' ', '')}],
             ['link', {'target': '/z', 'rel': 'alternate //ex.org/' + s.replace(' ', '') + ' next'}],
@@ -1180,6 +1289,56 @@ def directed_programs():
                 ['link', {'target': '/b', 'rel': 'prev', 'crossorigin': 'USE-credentials', 'title': 'B, the; 2nd=b',
                           'type_hint': 'text/html', 'hreflang': ['en', 'fr-CA'], 'link_extension': [['x-foo', '1'], ['media', 'screen']]}],
                 ['set', 'LINK', 'manual'], ['link', {'target': '/c', 'rel': 'http://ex.org/rel type', 'hreflang': 'de'}]])
+    # -- unset_cookie: every combination of its three optional parameters, keyword and positional form
+    for ss in (None, 'Strict', 'None', 'lax', ''):
+        for dom in (None, 'example.com'):
+            for pth in (None, '/app'):
+                kw = {}
+                if ss is not None:
+                    kw['samesite'] = ss
+                if dom:
+                    kw['domain'] = dom
+                if pth:
+                    kw['path'] = pth
+                for form in ([], ['pos']):
+                    out.append([['unset', 'sid', kw] + form, ['cookie', 'other', '1', {}]])
+                    out.append([['cookie', 'sid', 'v', {'domain': 'old.example', 'path': '/old'}] + form,
+                                ['unset', 'sid', kw] + form])
+    # -- set_cookie / append_link: positional form with every prefix of the documented parameter list
+    full = {'expires': DT_AWARE, 'max_age': 7, 'domain': 'example.com', 'path': '/p', 'secure': False,
+            'http_only': False, 'same_site': 'Strict', 'partitioned': True}
+    keys = list(full)
+    for n in range(len(keys) + 1):
+        out.append([['cookie', 'pc', 'v', {k: full[k] for k in keys[:n]}, 'pos'],
+                    ['cookie', 'pd', 'w', {k: full[k] for k in keys[n:]}, 'pos']])
+    lfull = {'title': 'T', 'title_star': ['en', 'T\u00e9'], 'anchor': '/a\u00e9', 'hreflang': ['en', 'de'],
+             'type_hint': 'text/html', 'crossorigin': 'anonymous', 'link_extension': [['x-foo', '1']]}
+    lkeys = list(lfull)
+    for n in range(len(lkeys) + 1):
+        a = {'target': '/t', 'rel': 'next'}
+        a.update({k: lfull[k] for k in lkeys[:n]})
+        b = {'target': '/u', 'rel': 'prev'}
+        b.update({k: lfull[k] for k in lkeys[n:]})
+        out.append([['link', a, 'pos'], ['link', b, 'pos']])
+    # -- equal-but-distinct values: what one assignment produced must not be reused for another value that
+    #    merely compares equal (same instant in another zone, 1 == 1.0 == True, equal tuples)
+    inst = [{'dt': [2024, 5, 1, 13, 0, 0], 'off': 60}, {'dt': [2024, 5, 1, 12, 0, 0], 'off': 0},
+            {'dt': [2024, 5, 1, 7, 0, 0], 'off': -300}, {'dt': [2024, 5, 1, 17, 30, 0], 'off': 330},
+            {'dt': [2024, 5, 1, 12, 0, 0], 'off': None}]
+    for a in inst:
+        for b in inst:
+            if a is not b:
+                out.append([['prop', 'last_modified', a], ['prop', 'last_modified', b], ['prop', 'expires', a],
+                            ['prop', 'expires', b], ['cookie', 'e1', 'v', {'expires': a}],
+                            ['cookie', 'e2', 'v', {'expires': b}]])
+    nums = [1, 1.0, True, '1', 0, 0.0, False, '0']
+    for a in nums:
+        for b in nums:
+            if a is not b:
+                out.append([['prop', 'content_length', a], ['prop', 'content_length', b], ['prop', 'retry_after', a],
+                            ['prop', 'retry_after', b], ['set', 'X-N', a], ['set', 'X-N', b],
+                            ['prop', 'content_range', {'tuple': [a, 9, 100]}], ['prop', 'content_range', {'tuple': [b, 9, 100]}],
+                            ['cookie', 'n1', 'v', {'max_age': a}], ['cookie', 'n2', 'v', {'max_age': b}]])
     # -- rejected operations: the response must be left exactly as it was
     bs = {'badstr': 1}
     for p, bads in BAD_PROP.items():
@@ -1305,7 +1464,7 @@ def g_prop(rng):
     elif p == 'etag':
         v = rng.choice(['abc', 'W/"x"', '"q"', 'sp ace', '0', 'W/x'])
     elif p in ('expires', 'last_modified'):
-        v = g_dt(rng, False)
+        v = g_dt(rng, rng.random() < 0.25)
     elif p == 'retry_after':
         v = rng.choice([0, 1, 120, 86400])
     else:
@@ -1407,9 +1566,9 @@ def g_history(rng):
         elif r < 0.65:
             prog.append(['propdel', rng.choice(list(PROPS))])
         elif r < 0.72:
-            prog.append(g_link(rng))
+            prog.append(g_link(rng) + (['pos'] if rng.random() < 0.3 else []))
         elif r < 0.83:
-            prog.append(g_cookie(rng, cnames))
+            prog.append(g_cookie(rng, cnames) + (['pos'] if rng.random() < 0.3 else []))
         elif r < 0.88:
             kw = {}
             if rng.random() < 0.4:
@@ -1418,7 +1577,7 @@ def g_history(rng):
                 kw['domain'] = rng.choice(['example.com', 'sub.x.io'])
             if rng.random() < 0.3:
                 kw['path'] = rng.choice(['/', '/a/b'])
-            prog.append(['unset', rng.choice(cnames), kw])
+            prog.append(['unset', rng.choice(cnames), kw] + (['pos'] if rng.random() < 0.4 else []))
         elif r < 0.915:
             n = rng.choice(cnames) if rng.random() < 0.5 else g_cookie_name(rng)
             raw = '%s=%s' % (n, ''.join(rng.choice(SAFE_VALUE_CHARS) for _ in range(rng.randint(0, 6))))
@@ -1498,7 +1657,8 @@ def run(rec):
     last_sd = None
 
     def flush(sd):
-        prog = [['cookie', 'ck%d' % j, 'v%d' % j, kw] for j, kw in enumerate(batch)]
+        prog = [['cookie', 'ck%d' % j, 'v%d' % j, kw] + (['pos'] if (j + bidx) % 2 else [])
+                for j, kw in enumerate(batch)]
         run_program(rec, prog, sd)
         rec.count('phase.B', len(batch))
 
@@ -1599,8 +1759,12 @@ def run(rec):
     rec.floor('phase.B', 5760)
     rec.floor('phase.D', 500)
     rec.floor('phase.C', 200)
-    rec.floor('phase.E', 110)
+    rec.floor('phase.E', 280)
     rec.floor('phase.F', 1000)
+    for c, nmin in [('callform.unset_positional', 80), ('callform.cookie_positional', 2000),
+                    ('callform.link_positional', 1000), ('prop.date_other_zone', 40), ('prop.date_utc_aware', 40),
+                    ('prop.date_naive', 40), ('mon.echo_again', 2500), ('mon.unset_attrs', 200)]:
+        rec.floor(c, nmin)
     rec.floor('phase.G', 700)
     rec.floor('phase.H', 60)
     rec.floor('sweep.special', 2000)
@@ -1644,5 +1808,7 @@ def replay(rec, w):
     prog = wit['prog']
     print('replaying history of %d operations (secure_default=%r), reported on %s' % (
         len(prog), wit.get('secure_default'), wit.get('server')))
+    for bprog, bsd, btz in wit.get('before') or []:
+        run_program(rec, bprog, bsd, tz=btz)
     run_program(rec, prog, wit.get('secure_default', True), tz=wit.get('tz') or 'UTC')
     rec.case('replay-sentinel')
